@@ -1,13 +1,15 @@
 #!/usr/bin/env python3-vt
 """developer helper: run sidecar modules and print every obligation"""
 import sys, os, time
+if os.environ.get("PYTHONHASHSEED") != "0":
+    os.environ["PYTHONHASHSEED"] = "0"; os.execv(sys.executable, [sys.executable] + sys.argv)
 sys.path.insert(0, os.path.dirname(os.path.abspath(__file__)))
 from pyvc import driver
 mods = sys.argv[1].split(",")
 jobs = int(os.environ.get("JOBS", "16"))
 t0 = time.time()
 only = os.environ.get("TASK")
-ctx, loaded, results = driver.run_modules(mods, {"z3_timeout_ms": int(os.environ.get("ZT", "10000")), "only_tasks": only.split(",") if only else None}, jobs=jobs)
+ctx, loaded, results = driver.run_modules(mods, {"z3_timeout_ms": int(os.environ.get("ZT", "10000")), "only_tasks": only.split(",") if only else None, "verify_modules": os.environ.get("VM", "").split(",") if os.environ.get("VM") else None}, jobs=jobs)
 n = bad = 0
 for r in results:
     if r.get("error"):
